@@ -276,7 +276,7 @@ def build():
         end = vxlib.match_brace(t.t, code, m.end() - 1)
         t.edit('R12', m.end(), end - 1, ' return self.verif_client_decode(cx); ', 'client loop cut by contract')
     u.raw('''impl<B: InnerBody> GrpcWebCall<B> {
-    // the client-side decoding loop of poll_frame: under contract in unit webclient
+    // A-cut-02: the client-side decoding loop of poll_frame is an opaque call here; it is under contract in unit webclient
     #[verifier::external_body]
     pub fn verif_client_decode(&mut self, cx: &mut Context) -> (r: Poll<Option<Result<Frame<Bytes>, Status>>>)
         requires old(self).client && old(self).direction == Direction::Decode
